@@ -70,7 +70,7 @@ def _one(binary, seed, index, nops=None, skip=()):
 def _classify(stderr):
     """(class, attributed_to_repo): the first frame of the report that lies in /repo's sources names the class."""
     src = B.repo_src()
-    kind = (re.findall(r'MemorySanitizer: ([a-z-]+)', stderr) or ['report'])[0]
+    kind = (re.findall(r'MemorySanitizer: ([A-Za-z-]+)', stderr) or ['report'])[0]
     # the first frame of the STACK (not of the origin chain that follows it) that lies in /repo's sources
     head = stderr.split('Uninitialized value was')[0]
     m = re.search(re.escape(src) + r'/(?:ace_time/)?(?:[\w./]*/)?([\w]+\.(?:h|cpp)):(\d+)', head)
@@ -79,6 +79,12 @@ def _classify(stderr):
     m = re.search(re.escape(src) + r'/(?:ace_time/)?(?:[\w./]*/)?([\w]+\.(?:h|cpp)):(\d+)', stderr)
     if m:   # consumed in the probe, created in /repo: a value the library handed out without writing it
         return 'msan:%s@origin:%s:%s' % (kind, m.group(1), m.group(2)), True
+    # no /repo frame at all: the probe itself tripped over a value the library handed it (e.g. strlen() of the pointer
+    # getAbbrev() returned). The probe has no state of its own worth the name and is quiet on the unchanged tree, so
+    # this is attributed to the library's answer, named by the probe line that consumed it.
+    m = re.search(r'msanprobe\.cpp:(\d+)', head)
+    if m:
+        return 'msan:%s@probe-line-%s' % (kind, m.group(1)), True
     return 'msan:%s' % kind, False
 
 
